@@ -14,6 +14,11 @@ Subset (anything else raises `Untranslatable` naming function and construct — 
                str methods lower strip split() split(None,1) rsplit(c,1) startswith(x[,pos]) endswith(x) find(c),
                match-object methods group() group(0) end(), calls of other translated functions and of the instances built from
                them, mapping.get, os.getenv, self._x, rx.match(s[,pos]), getattr(socket, "AF_UNIX", None), os.sep
+Second round (timedelta, cmdline.py, url.py, parser prefixes): chained assignment of a constant, float(x) and datetime.timedelta
+as PARAMETERS, s[i], `try: return f() except Cls as e`, exception objects (e = Cls(msg, *pos); e.attr = v; raise e), s.split(c[,1]),
+`"" in list`, named groups m.group('a', 'b'), module-global compiled patterns, `self.meth(msg)` inlined when meth is one `raise`,
+the PURE PREFIX of a method (Spec.cut_markers / cut_result), `self.lst.append(x)` as the result (Spec.appends), urllib functions
+as parameters.
 Typing: every function has an explicit signature in SPECS below; locals are typed by inference along each control path
 (continuations are duplicated into the branches, so a variable may have a different type on different paths:
 `p = None` after `host, p = s.rsplit(":", 1)`); Optional values are narrowed by `if x:`, `if not x:`, `is None`, `is not None`.
